@@ -76,7 +76,7 @@ def _any_body(body):
     return len(body) == 1 and isinstance(body[0], ast.Expr) and _is_ellipsis(body[0].value)
 
 
-def match(p, n, b: dict, expanded: bool = False) -> bool:
+def match(p, n, b: dict, expanded: bool = False, exp=None) -> bool:
     """Match pattern node p against node n, extending the bindings b (copy on the caller's side if you need backtracking)."""
     if isinstance(p, ast.AST):
         mv = _mv(p)
@@ -88,7 +88,7 @@ def match(p, n, b: dict, expanded: bool = False) -> bool:
                 return False
             if name == "_":
                 return True
-            d = _dump(n)
+            d = _dump(exp.canon(n)) if exp is not None else _dump(n)
             if name in b:
                 return b[name][0] == d
             b[name] = (d, n)
@@ -96,11 +96,11 @@ def match(p, n, b: dict, expanded: bool = False) -> bool:
         if _is_ellipsis(p):
             return isinstance(n, ast.expr)
         if isinstance(p, ast.Assign) and isinstance(n, ast.AnnAssign) and len(p.targets) == 1 and n.value is not None:
-            return match(p.targets[0], n.target, b, expanded) and match(p.value, n.value, b, expanded)
+            return match(p.targets[0], n.target, b, expanded, exp) and match(p.value, n.value, b, expanded, exp)
         if type(p) is not type(n):
             return False
         if isinstance(p, ast.Call):
-            if not match(p.func, n.func, b, expanded):
+            if not match(p.func, n.func, b, expanded, exp):
                 return False
             pargs = list(p.args)
             rest = False
@@ -114,16 +114,16 @@ def match(p, n, b: dict, expanded: bool = False) -> bool:
             elif len(n.args) != len(pargs):
                 return False
             for pa, na in zip(pargs, n.args):
-                if not match(pa, na, b, expanded):
+                if not match(pa, na, b, expanded, exp):
                     return False
             nk = {k.arg: k.value for k in n.keywords}
             for k in p.keywords:
                 if k.arg is None:
                     cands = [x.value for x in n.keywords if x.arg is None]
-                    if not any(match(k.value, c, b, expanded) for c in cands):
+                    if not any(match(k.value, c, b, expanded, exp) for c in cands):
                         return False
                     continue
-                if k.arg not in nk or not match(k.value, nk[k.arg], b, expanded):
+                if k.arg not in nk or not match(k.value, nk[k.arg], b, expanded, exp):
                     return False
             if not rest and {k.arg for k in p.keywords} != set(nk) | ({None} if any(x.arg is None for x in n.keywords) else set()):
                 return False
@@ -137,13 +137,13 @@ def match(p, n, b: dict, expanded: bool = False) -> bool:
                     continue
             if f == "annotation" or f == "returns" or f == "decorator_list":
                 continue
-            if not match(pv, nv, b, expanded):
+            if not match(pv, nv, b, expanded, exp):
                 return False
         return True
     if isinstance(p, list):
         if not isinstance(n, list) or len(p) != len(n):
             return False
-        return all(match(x, y, b, expanded) for x, y in zip(p, n))
+        return all(match(x, y, b, expanded, exp) for x, y in zip(p, n))
     return p == n
 
 
@@ -174,12 +174,44 @@ class Expander:
                 simple[n.targets[0].id] = n.value
             elif isinstance(n, ast.AnnAssign) and isinstance(n.target, ast.Name) and n.value is not None:
                 simple[n.target.id] = n.value
+        # tuple unpacking  a, b = E   ->  a = E[0], b = E[1];   loop variables  for v in X -> v = __elem__(X)
+        def bind_target(t, value):
+            if isinstance(t, ast.Name):
+                simple.setdefault(t.id, value)
+            elif isinstance(t, (ast.Tuple, ast.List)) and not any(isinstance(e, ast.Starred) for e in t.elts):
+                for i, e in enumerate(t.elts):
+                    bind_target(e, ast.Subscript(value=value, slice=ast.Constant(value=i), ctx=ast.Load()))
+
+        def elem(x):
+            return ast.Call(func=ast.Name(id="__elem__", ctx=ast.Load()), args=[x], keywords=[])
+
+        def bind_loop(t, it):
+            if isinstance(it, ast.Call) and isinstance(it.func, ast.Name) and not it.keywords:
+                if it.func.id == "zip" and isinstance(t, (ast.Tuple, ast.List)) and len(t.elts) == len(it.args):
+                    for e, a in zip(t.elts, it.args):
+                        bind_loop(e, a)
+                    return
+                if it.func.id == "enumerate" and isinstance(t, (ast.Tuple, ast.List)) and len(t.elts) == 2 and len(it.args) == 1:
+                    bind_target(t.elts[0], ast.Call(func=ast.Name(id="__index__", ctx=ast.Load()), args=[it.args[0]], keywords=[]))
+                    bind_loop(t.elts[1], it.args[0])
+                    return
+            bind_target(t, elem(it))
+
+        for n in ast.walk(fn_node):
+            if isinstance(n, ast.Assign) and len(n.targets) == 1 and isinstance(n.targets[0], (ast.Tuple, ast.List)):
+                bind_target(n.targets[0], n.value)
+            elif isinstance(n, ast.For):
+                bind_loop(n.target, n.iter)
         for nm, v in simple.items():
             if counts.get(nm, 0) == 1 and nm not in params:
                 if any(isinstance(x, (ast.Yield, ast.YieldFrom, ast.Await, ast.NamedExpr)) for x in ast.walk(v)):
                     continue
                 self.defs[nm] = v
         self.max_depth = max_depth
+
+    def canon(self, node: ast.AST) -> ast.AST:
+        """Expression with every context Load and temporaries expanded: the form under which bindings are compared."""
+        return self.expand(_strip_ctx(copy.deepcopy(node)))
 
     def expand(self, node: ast.AST, depth: int = 0, skip: frozenset = frozenset()) -> ast.AST:
         defs = self.defs
@@ -261,7 +293,7 @@ class Matcher:
             if not pat.is_expr and not isinstance(n, ast.stmt):
                 continue
             b = dict(binds or {})
-            if match(pat.node, n, b, False):
+            if match(pat.node, n, b, False, self._exp):
                 res.append((n, b))
                 seen.add(id(n))
         # expanded
@@ -272,10 +304,14 @@ class Matcher:
                 if id(st) in seen:
                     continue
                 b = dict(binds or {})
-                if match(pat.node, x, b, True):
+                if match(pat.node, x, b, True, self._exp):
                     res.append((st, b))
                     seen.add(id(st))
             else:
+                if any(id(sub) in seen for f, v in ast.iter_fields(st) if f not in ("body", "orelse", "finalbody", "handlers", "cases")
+                       for e in (v if isinstance(v, list) else [v]) if isinstance(e, (ast.AST,))
+                       for sub in ast.walk(e.context_expr if isinstance(e, ast.withitem) else e)):
+                    continue  # the statement as written already matches
                 for f, v in ast.iter_fields(x):
                     if f in ("body", "orelse", "finalbody", "handlers", "cases"):
                         continue
@@ -289,7 +325,7 @@ class Matcher:
                             if not isinstance(sub, ast.expr):
                                 continue
                             b = dict(binds or {})
-                            if match(pat.node, sub, b, True):
+                            if match(pat.node, sub, b, True, self._exp):
                                 key = (id(st), _dump(sub))
                                 if key in seen:
                                     continue
